@@ -200,6 +200,18 @@ def e_note(path, text):
     return (f'{path}.note={text!r}', live, model)
 
 
+def e_moved_note(ti, text):
+    """assign a Note object that already belonged to another (discarded) table"""
+    def live(db):
+        from pydbml.classes import Table
+        tmp = Table('discarded', note=text)
+        db.tables[ti].note = tmp.note
+
+    def model(m):
+        m['tables'][ti]['note'] = text
+    return (f'tables[{ti}].note=<Note taken from a discarded table>', live, model)
+
+
 def e_table_attr(ti, attr, val):
     def live(db):
         setattr(db.tables[ti], attr, val)
@@ -351,6 +363,8 @@ def _edits():
     E.append(e_ref_attr(3, 'type', '-'))
     E.append(e_ref_attr(0, 'inline', False))
     E.append(e_ref_attr(3, 'inline', True))
+    E.append(e_ref_attr(2, 'inline', True))         # asked for while the reference is <> (no effect yet); matters once its type changes
+    E.append(e_moved_note(1, 'moved note'))
     E.append(e_ref_attr(1, 'name', None))
     E.append(e_ref_attr(3, 'name', 'named'))
     E.append(e_ref_attr(1, 'on_delete', 'cascade'))
